@@ -40,6 +40,12 @@ pub enum Tok {
     /// Pending (what tokio I/O resources do outside a scheduler context, e.g. in the body of
     /// #[tokio::main])
     Exhaust,
+    /// the receiver moves to another task (a `recv` future that was pending in one task - a
+    /// timeout, a select! arm - is dropped and the socket is awaited from a different task):
+    /// from now on the receiver is polled with a NEW waker, the new task polls it at least once,
+    /// and wake-ups delivered to the old waker reach nobody. Only valid outside a stream poll
+    /// and after the receiver has been polled at least once since the last migration.
+    Migrate,
 }
 
 pub type Item = (u8, u32, u32); // key, generation, seq
@@ -79,6 +85,7 @@ pub struct World {
     /// stream polls at the start of the current receiver poll
     polls_at_recv_start: u64,
     pub spin_detected: bool,
+    pub migrated: bool,
 }
 
 pub struct ScriptStream {
@@ -260,7 +267,7 @@ fn exec(world: &Arc<Mutex<World>>, t: Tok, in_window: bool) -> bool {
             w.exhausted_used = true;
             true
         }
-        Tok::Recv | Tok::Settle => false,
+        Tok::Recv | Tok::Settle | Tok::Migrate => false,
     }
 }
 
@@ -360,6 +367,8 @@ pub struct RunStats {
     pub two_busy: bool,
     pub invalid_at: Option<usize>,
     pub n_streams: usize,
+    #[serde(default)]
+    pub migrated: bool,
 }
 
 pub struct RunResult {
@@ -406,12 +415,19 @@ pub fn run_schedule(toks: &[Tok], n_keys: usize, block_on_no_clients: bool) -> R
         exhausted_used: false,
         polls_at_recv_start: 0,
         spin_detected: false,
+        migrated: false,
     }));
-    let flag = Arc::new(RecvFlag {
-        woken: AtomicBool::new(false),
-        count: AtomicU32::new(0),
-    });
-    let waker = Waker::from(flag.clone());
+    // one (flag, waker) per task the receiver lives in; `cur` is the current one
+    let flags: Vec<Arc<RecvFlag>> = (0..64)
+        .map(|_| {
+            Arc::new(RecvFlag {
+                woken: AtomicBool::new(false),
+                count: AtomicU32::new(0),
+            })
+        })
+        .collect();
+    let wakers: Vec<Waker> = flags.iter().map(|f| Waker::from(f.clone())).collect();
+    let cur = std::cell::Cell::new(0usize);
     let mut stats = RunStats {
         n_streams: n_keys,
         ..Default::default()
@@ -427,12 +443,12 @@ pub fn run_schedule(toks: &[Tok], n_keys: usize, block_on_no_clients: bool) -> R
                        c05: &mut Vec<Failure>,
                        c06: &mut Vec<Failure>,
                        ended_none: &mut bool| {
-        flag.woken.store(false, Ordering::SeqCst);
+        flags[cur.get()].woken.store(false, Ordering::SeqCst);
         {
             let mut w = world.lock().unwrap();
             w.polls_at_recv_start = w.stream_polls;
         }
-        let mut cx = Context::from_waker(&waker);
+        let mut cx = Context::from_waker(&wakers[cur.get()]);
         let r = Pin::new(&mut *probe).poll_next(&mut cx);
         let mut w = world.lock().unwrap();
         // back at the executor: the next poll starts with a fresh budget
@@ -529,7 +545,7 @@ pub fn run_schedule(toks: &[Tok], n_keys: usize, block_on_no_clients: bool) -> R
             }
             let must_poll = match *parked {
                 None | Some(false) => !*ended_none,
-                Some(true) => flag.woken.load(Ordering::SeqCst),
+                Some(true) => flags[cur.get()].woken.load(Ordering::SeqCst),
             };
             if !must_poll {
                 break;
@@ -578,6 +594,17 @@ pub fn run_schedule(toks: &[Tok], n_keys: usize, block_on_no_clients: bool) -> R
                 }
                 do_poll(&mut probe, &mut parked, &mut stats, &mut c05, &mut c06, &mut ended_none);
             }
+            Tok::Migrate => {
+                // pointless (and pruned) before the first poll or right after a migration
+                if ended_none || parked.is_none() || cur.get() + 1 >= flags.len() {
+                    let mut w = world.lock().unwrap();
+                    w.invalid_at = Some(w.pos - 1);
+                    break;
+                }
+                cur.set(cur.get() + 1);
+                parked = None;
+                world.lock().unwrap().migrated = true;
+            }
             Tok::Settle => {
                 if ended_none {
                     let mut w = world.lock().unwrap();
@@ -618,6 +645,7 @@ pub fn run_schedule(toks: &[Tok], n_keys: usize, block_on_no_clients: bool) -> R
         stats.window_tokens = w.window_tokens;
         stats.window_wakes = w.window_wakes;
         stats.two_busy = w.two_busy;
+        stats.migrated = w.migrated;
         stats.invalid_at = w.invalid_at;
         if w.stream_polls > 100_000 {
             fail!(c06, "C06/queue/spin", "more than 100000 stream polls in one schedule");
@@ -645,6 +673,14 @@ pub fn alphabet(n_keys: usize, with_stale: bool) -> Vec<Tok> {
     v
 }
 
+/// `alphabet` plus the Migrate token (kept separate: byte-level fuzz inputs and their saved
+/// replays index into `alphabet`)
+pub fn alphabet_m(n_keys: usize, with_stale: bool) -> Vec<Tok> {
+    let mut v = alphabet(n_keys, with_stale);
+    v.push(Tok::Migrate);
+    v
+}
+
 pub fn show(toks: &[Tok]) -> String {
     toks.iter()
         .map(|t| match t {
@@ -657,6 +693,7 @@ pub fn show(toks: &[Tok]) -> String {
             Tok::Recv => "R".into(),
             Tok::Settle => "S".into(),
             Tok::Exhaust => "E".into(),
+            Tok::Migrate => "M".into(),
         })
         .collect::<Vec<_>>()
         .join(" ")
